@@ -760,14 +760,15 @@ def keepsFast (src : Array Spec.SrcToken) (c : Spec.Converted) : Option String :
   let entries := c.entries
   let entrySet : HashSet (Id × Bytes) := entries.foldl (fun m e => m.insert e) {}
   let byBytes : HashMap Bytes (List Id) := entries.foldl (fun m e => m.insert e.2 (e.1 :: m.getD e.2 [])) {}
-  let vocabById : HashMap Id (List Bytes) := c.vocab.foldl (fun m e => m.insert e.1 (e.2 :: m.getD e.1 [])) {}
+  let srcOrdById : HashMap Id (List Bytes) :=
+    src.foldl (fun m t => if t.special.isNone then m.insert t.id (t.bytes :: m.getD t.id []) else m) {}
   let srcMap : HashMap (Id × Bytes) Spec.SrcToken := src.foldl (fun m t => if m.contains (t.id, t.bytes) then m else m.insert (t.id, t.bytes) t) {}
   let lost := src.find? fun t =>
     match t.special with
     | none => !(t.unused || entrySet.contains (t.id, t.bytes) || (byBytes.getD t.bytes []).any (· != t.id))
     | some k => !(c.specials.any fun sp => sp.kind == k &&
         ((sp.id == t.id && (sp.bytes == t.bytes || k == .unknown)) ||
-         (sp.bytes == t.bytes && (vocabById.getD t.id []).any (· != t.bytes))))
+         (sp.bytes == t.bytes && (srcOrdById.getD t.id []).any (· != t.bytes))))
   match lost with
   | some t => some s!"source-token-not-kept {showTok t.id t.bytes}{if t.special.isSome then ",special" else ""}"
   | none =>
